@@ -65,6 +65,10 @@ pub enum Step {
     /// C32 stub of the future `set_builder_fee`: checkpoint a builder (user index) and a fee factor (in
     /// 1e-6 units of 100 %) onto the pending order `slot`.
     ForgeBuilder { slot: usize, builder: usize, factor_ppm: u32 },
+    /// The fee receiver claims the accrued receiver fees of a market side.
+    ClaimFees { market: usize, long_side: bool },
+    /// The market keeper tops a market up from the stranger's token account (keeper transfer).
+    TransferIn { market: usize, long_side: bool, amount: u64 },
     /// Keeper refreshes the ADL-enabled flag of a market side.
     UpdateAdl { market: usize, is_long: bool },
     /// Keeper auto-deleverages position `pos` (usize::MAX = the most recent one) by `size_usd`.
@@ -375,7 +379,9 @@ impl Scenario for Exchange {
                 56..=77 => Step::Execute { slot: if p.chance(3, 4) { n_actions.saturating_sub(1) } else { p.usize(0, n_actions.max(1) - 1) }, throw: p.chance(1, 2) },
                 78..=87 => Step::Close { slot: p.usize(0, n_actions.max(1) - 1), by: *p.pick(&[By::Owner, By::Owner, By::Keeper, By::Stranger]) },
                 88..=90 => Step::Liquidate { pos: p.usize(0, 7) },
-                91..=93 => Step::UpdateFees { market },
+                91 => Step::UpdateFees { market },
+                92 => Step::ClaimFees { market, long_side: p.bool() },
+                93 => if p.bool() { Step::TransferIn { market, long_side: p.bool(), amount: p.log_u64(5_000_000_000) } } else { Step::UpdateFees { market } },
                 94..=96 if cfg.faults => Step::Dust { token: p.usize(0, n_tokens - 1), to: p.below(2) as u8, slot: p.usize(0, n_actions.max(1) - 1), amount: p.log_u64(1_000_000_000) },
                 97 if cfg.faults => Step::DupExecute { slot: p.usize(0, n_actions.max(1) - 1) },
                 98 => Step::ForgeBuilder { slot: n_actions.saturating_sub(1), builder: p.usize(0, cfg.n_users - 1), factor_ppm: *p.pick(&[0u32, 1, 100, 1_000, 10_000, 50_000]) },
@@ -383,7 +389,7 @@ impl Scenario for Exchange {
                 _ => Step::Prices { cents: cents.clone(), spread_bps: 2 },
             };
             // most executes are preceded by fresh prices
-            if matches!(s, Step::Execute { .. } | Step::Liquidate { .. } | Step::UpdateFees { .. }) && p.chance(4, 5) {
+            if matches!(s, Step::Execute { .. } | Step::Liquidate { .. } | Step::UpdateFees { .. } | Step::ClaimFees { .. }) && p.chance(4, 5) {
                 steps.push(Step::Prices { cents: cents.clone(), spread_bps: 2 });
             }
             steps.push(s);
@@ -1004,6 +1010,51 @@ impl Sim {
                     let keeper = self.d.keeper;
                     let stranger = self.stranger;
                     self.twin(&pre, &ixs, &keeper, "liquidate", "no_role", &stranger, obs);
+                }
+                self.after_tx(&out, obs);
+            }
+            Step::ClaimFees { market, long_side } => {
+                let mk = self.d.markets[*market % self.d.markets.len()].clone();
+                let t = if *long_side { mk.long } else { mk.short };
+                let mint = self.d.tokens[t].mint;
+                let receiver = self.d.admin;
+                let target = ata(&receiver, &mint);
+                let ixs = vec![
+                    ex::create_ata_ix(&receiver, &receiver, &mint),
+                    store_ix(
+                        gmsol_store::accounts::ClaimFeesFromMarket { authority: receiver, store: self.d.store, market: mk.market, token_mint: mint, vault: vault_of(&self.d.store, &mint), target, token_program: spl_token::ID, event_authority: self.d.event_authority, program: gmsol_store::ID },
+                        gmsol_store::instruction::ClaimFeesFromMarket {},
+                    ),
+                ];
+                let pre = self.w.clone();
+                let before = token_balance(&self.w, &target);
+                let out = self.w.process_tx(&ixs, &TxOpts::default());
+                obs.outcome("fee_receiver", "claim_fees_from_market", &out.class());
+                if out.ok {
+                    if token_balance(&self.w, &target) > before {
+                        obs.probe("fees_claimed_nonzero");
+                    }
+                    let stranger = self.stranger;
+                    self.twin(&pre, &ixs, &receiver, "claim_fees_from_market", "not_the_receiver", &stranger, obs);
+                }
+                self.after_tx(&out, obs);
+            }
+            Step::TransferIn { market, long_side, amount } => {
+                let mk = self.d.markets[*market % self.d.markets.len()].clone();
+                let t = if *long_side { mk.long } else { mk.short };
+                let mint = self.d.tokens[t].mint;
+                let ix = store_ix(
+                    gmsol_store::accounts::MarketTransferIn { authority: self.d.keeper, store: self.d.store, from_authority: self.stranger, market: mk.market, from: ata(&self.stranger, &mint), vault: vault_of(&self.d.store, &mint), token_program: spl_token::ID, event_authority: self.d.event_authority, program: gmsol_store::ID },
+                    gmsol_store::instruction::MarketTransferIn { amount: *amount },
+                );
+                let pre = self.w.clone();
+                let out = self.w.process(ix.clone());
+                obs.outcome("market_keeper", "market_transfer_in", &out.class());
+                if out.ok {
+                    obs.probe("keeper_transfer_in");
+                    let keeper = self.d.keeper;
+                    let other = self.user(0);
+                    self.twin(&pre, &[ix], &keeper, "market_transfer_in", "no_role", &other, obs);
                 }
                 self.after_tx(&out, obs);
             }
